@@ -108,3 +108,30 @@ Example C19_lap_hyps_nonvacuous :
   let s := snd (fst (read_float 9 (snd (pcm_seek demo2 300)) 10), snd (read_float 9 (snd (pcm_seek demo2 300)) 10)) in
   lap_hyps s 400 = true /\ v_pcm (snd (pcm_seek_lap s 400)) = 400 /\ v_pcm (snd (pcm_seek s 400)) = 400.
 Proof. vm_compute. repeat split. Qed.
+
+(* page- and byte-granularity lapped seeks: wherever the plain seek (applied after the set-up) lands on an intact
+   run with two packets to prime from - the landing the theorems C07_page_seek_truthful_on_intact_run and
+   C07_raw_seek_truthful_* establish - the lapped variant returns 0 and reports the same position *)
+Theorem C19_lapped_page_seek_lands_where_plain_lands :
+  forall (tail : list page) s pos s2 s3 pos',
+    OPENED <= v_rs s -> 0 <= pos <= pcm_total s ->
+    lap_pre s = Some s2 -> pcm_seek_page s2 pos = (0, s3) -> Landed tail s3 pos' -> (2 <= length (stream tail s3))%nat ->
+    fst (pcm_seek_page_lap s pos) = 0 /\ v_pcm (snd (pcm_seek_page_lap s pos)) = v_pcm s3.
+Proof.
+  intros tail s pos s2 s3 pos' Hrs Hpos Hpre Hs Hl Hn. unfold pcm_seek_page_lap.
+  destruct (v_rs s <? OPENED) eqn:E0; [lia|]. destruct ((pos <? 0) || (pos >? pcm_total s)) eqn:E1; [lia|].
+  exact (lap_seek_lands_where_plain_lands tail pcm_seek_page s pos s2 s3 pos' Hpre Hs Hl Hn).
+Qed.
+Print Assumptions C19_lapped_page_seek_lands_where_plain_lands.
+
+Theorem C19_lapped_byte_seek_lands_where_plain_lands :
+  forall (tail : list page) s pos s2 s3 pos',
+    OPENED <= v_rs s -> 0 <= pos <= file_end s ->
+    lap_pre s = Some s2 -> raw_seek s2 pos = (0, s3) -> Landed tail s3 pos' -> (2 <= length (stream tail s3))%nat ->
+    fst (raw_seek_lap s pos) = 0 /\ v_pcm (snd (raw_seek_lap s pos)) = v_pcm s3.
+Proof.
+  intros tail s pos s2 s3 pos' Hrs Hpos Hpre Hs Hl Hn. unfold raw_seek_lap.
+  destruct (v_rs s <? OPENED) eqn:E0; [lia|]. destruct ((pos <? 0) || (pos >? file_end s)) eqn:E1; [lia|].
+  exact (lap_seek_lands_where_plain_lands tail raw_seek s pos s2 s3 pos' Hpre Hs Hl Hn).
+Qed.
+Print Assumptions C19_lapped_byte_seek_lands_where_plain_lands.
